@@ -147,8 +147,10 @@ rci_t _mzd_ple(mzd_t *A, mzp_t *P, mzp_t *Q, int const cutoff)
 __CPROVER_requires(PLUQ_REQ(A, P, Q, cutoff)) __CPROVER_assigns(vg_rank) __CPROVER_ensures(RANK_OK(__CPROVER_return_value, A) && vg_rank == __CPROVER_return_value);
 void mzd_apply_p_right_trans_tri(mzd_t *A, mzp_t const *Q)
 __CPROVER_requires(SHP(A) && PSHP(Q) && Q->length == A->ncols) __CPROVER_assigns();
+/* k: the admissible table parameters of property C02 (0 = automatic choice, 1..10; the block of 6k columns is handled as one
+ * machine word, so 6k <= 64) */
 rci_t mzd_echelonize_m4ri(mzd_t *A, int full, int k)
-__CPROVER_requires(SHP(A) && k >= 0 && k <= 16) __CPROVER_assigns() __CPROVER_ensures(RANK_OK(__CPROVER_return_value, A));
+__CPROVER_requires(SHP(A) && k >= 0 && k <= 10) __CPROVER_assigns() __CPROVER_ensures(RANK_OK(__CPROVER_return_value, A));
 /* header relation the inversion front end relies on (width is read to place the identity on a word boundary) */
 #define WIDTH_OK(M) ((M)->width == ((M)->ncols + 63) / 64)
 mzd_t *mzd_inv_m4ri(mzd_t *B, mzd_t const *A, int k)
